@@ -26,7 +26,8 @@ vars == <<v, rows, phase>>
 Checked == phase = "checked"
 
 \* probability grid as <<Num, Den>>
-Probs == <<<<1, 10>>, <<3, 10>>, <<1, 2>>, <<7, 10>>, <<9, 10>>, <<19, 20>>>>
+\* (0.99 and 0.995 agree to two decimals: every requested probability gets its own band all the same; chi draws at most 7)
+Probs == <<<<3, 10>>, <<1, 2>>, <<7, 10>>, <<9, 10>>, <<19, 20>>, <<99, 100>>, <<199, 200>>>>
 
 N == Len(v)
 R2(k) == 2 * Cardinality({j \in 1..N : v[j] < v[k]}) + Cardinality({j \in 1..N : v[j] = v[k]}) + 1
